@@ -171,10 +171,21 @@ def _validate_character_set(value: str) -> None:
         ) from e
 
 
+def _validate_client_character_set(value: str) -> None:
+    _validate_character_set(value)
+    # As in MySQL: the protocol's NUL-terminated strings cannot be told from the zero
+    # bytes of these encodings
+    if value in ("ucs2", "utf16", "utf16le", "utf32"):
+        raise MysqlError(
+            f"Character set cannot be used by a client: {value}",
+            code=ErrorCode.WRONG_VALUE_FOR_VAR,
+        )
+
+
 # Variables the server itself depends on are checked when they are assigned,
 # so a bad value is refused instead of breaking every later statement.
 VALIDATORS: dict[str, Callable[[Any], Any]] = {
-    "character_set_client": _validate_character_set,
+    "character_set_client": _validate_client_character_set,
     "character_set_connection": _validate_character_set,
     "character_set_results": _validate_character_set,
     "time_zone": parse_timezone,
